@@ -1316,7 +1316,18 @@ class RewriteAtQuery(NodeTransformer):
                         annotation=self.replacement_node.value,
                     )
 
-                if idx is not None and len(node.args.defaults) > idx:
+                if idx is not None:
+                    # `defaults` is right-aligned with `args`; `_idx` skips `self`/`cls`
+                    idx += (
+                        len(node.args.defaults)
+                        - len(node.args.args)
+                        + (
+                            1
+                            if node.args.args[0].arg in frozenset(("self", "cls"))
+                            else 0
+                        )
+                    )
+                if idx is not None and len(node.args.defaults) > idx >= 0:
                     new_default = get_value(self.replacement_node)
                     if new_default not in none_types:
                         node.args.defaults[idx] = new_default
